@@ -226,6 +226,12 @@ func (sw *SessionWindow) Add(data any) {
 		}
 		sw.sessionMap[key] = s
 	} else {
+		// An accepted out-of-order event may precede every event of the session
+		// so far: the session then starts at that event.
+		if timestamp.Before(*s.slot.Start) {
+			start := timestamp
+			s.slot.Start = &start
+		}
 		// Update session end time
 		if timestamp.After(s.lastActive) {
 			s.lastActive = timestamp
